@@ -765,7 +765,7 @@ pub fn run_c17(tier: Tier) -> i32 {
         }
         let top_exc = ti.map(|i| thr[i].clone());
         // second frame: a stride through the frame list (full list in thorough)
-        let second: Vec<Option<usize>> = if fi.is_some() { std::iter::once(None).chain((0..nf).filter(|k| (t && k % 4 == 0) || k % 13 == 0).map(Some)).collect() } else { vec![None] };
+        let second: Vec<Option<usize>> = if fi.is_some() { std::iter::once(None).chain((0..nf).filter(|k| (t && k % 4 == 0) || k % 7 == 0).map(Some)).collect() } else { vec![None] };
         // cause levels: throwable from a sub-list, 0..1 frames (2 in thorough)
         let cause_thr: Vec<usize> = (0..nthr).filter(|k| (t && k % 3 == 0) || k % 4 == 0).collect();
         let cause_frames: Vec<Option<usize>> = std::iter::once(None).chain((0..nf).filter(|k| k % (if t { 9 } else { 17 }) == 0).map(Some)).collect();
@@ -831,7 +831,7 @@ pub fn run_c17(tier: Tier) -> i32 {
         prop: "C17",
         tier,
         level: "model_checking",
-        rule: format!("throwables: 4 classes (with $, non-ASCII, 'Caused') x 10 messages (none, plain, 'x: y', 'Caused by: z', 'at a.b(c:1)', non-ASCII, inner double space and parentheses, interior U+2028/U+2029/U+0085, interior VT/FF/TAB/CR/NBSP, backslash and quote) = {}; frames (+ 2 whose class carries a module prefix containing '/'): 2 classes x 3 methods (m, <init>, non-ASCII) x 4 files (F.java, 'Unknown Source', '<unknown>', 'F(1).kt') x lines {{0,1,2^64-1}} = {}; traces: top-level exception present/absent x 0..2 frames (all first frames; second frame {}), one level with 20 frames, cause chains of depth 0..={} over a sub-family of cause levels (below tops without frames or with every 5th first frame); frames without file: text fix-point only. Oracle: parse(print(t)) == t and print(parse(print(t))) == print(t); single frames (3 indentations) and throwables likewise. distinct = distinct traces", nthr, nf, if t { "every 4th" } else { "every 13th" }, max_depth),
+        rule: format!("throwables: 4 classes (with $, non-ASCII, 'Caused') x 10 messages (none, plain, 'x: y', 'Caused by: z', 'at a.b(c:1)', non-ASCII, inner double space and parentheses, interior U+2028/U+2029/U+0085, interior VT/FF/TAB/CR/NBSP, backslash and quote) = {}; frames (+ 2 whose class carries a module prefix containing '/'): 2 classes x 3 methods (m, <init>, non-ASCII) x 4 files (F.java, 'Unknown Source', '<unknown>', 'F(1).kt') x lines {{0,1,2^64-1}} = {}; traces: top-level exception present/absent x 0..2 frames (all first frames; second frame {}), one level with 20 frames, cause chains of depth 0..={} over a sub-family of cause levels (below tops without frames or with every 5th first frame); frames without file: text fix-point only. Oracle: parse(print(t)) == t and print(parse(print(t))) == print(t); single frames (3 indentations) and throwables likewise. distinct = distinct traces", nthr, nf, if t { "every 4th" } else { "every 7th" }, max_depth),
         bounds: json!({"throwables": nthr, "frames": nf, "max_cause_depth": max_depth}),
         assumptions: vec!["frames carry a file (a None file prints as <unknown> and parses back as Some(\"<unknown>\"): only the text fix-point is checked for it)".into(), "cause levels carry an exception; the trace with neither exception nor frames is excluded (try_parse defines it as not a trace)".into()],
         trusted_base: vec!["rustc/std".into(), "PartialEq of StackTrace / StackFrame / Throwable".into()],
